@@ -112,10 +112,28 @@ pub(crate) fn remove_or_compress_too_old_logfiles_impl(
         log_limit = 1;
     }
 
-    for (index, file) in list_of_log_and_compressed_files(file_spec, infix_filter)?
-        .into_iter()
-        .enumerate()
+    #[allow(unused_mut)]
+    let mut files = list_of_log_and_compressed_files(file_spec, infix_filter)?;
+
+    // A compression that was interrupted (e.g. by a kill) leaves the original next to its archive.
+    // The original is only removed after the archive is complete, so it is the archive that is
+    // redundant, and possibly incomplete: remove it and let the original take part in the cleanup.
+    #[cfg(feature = "compress")]
     {
+        let redundant: Vec<PathBuf> = files
+            .iter()
+            .filter(|f| {
+                f.extension().is_some_and(|e| e == "gz") && files.contains(&f.with_extension(""))
+            })
+            .cloned()
+            .collect();
+        for file in redundant {
+            std::fs::remove_file(&file)?;
+            files.retain(|f| *f != file);
+        }
+    }
+
+    for (index, file) in files.into_iter().enumerate() {
         if index >= log_limit + compress_limit {
             // delete (log or log.gz)
             #[cfg(flexi_logger_verif)]
